@@ -55,8 +55,8 @@ PROPS = {
                   "CV.deliver_rejected_unchanged", "CV.later_failure_unchanged", "CV.runMsgs_fails", "CV.Coinswap.poolTax_ok", "CV.total_supply_inv", "CV.Coinswap.rejected_unchanged_monitor", "CV.Coinswap.swap_conserves_monitor", "CV.Coinswap.nodup_eraseDups"] + _CS_BRIDGE_CORE,
         comps={"outcome", "bank", "pools"}, triggers=_CS_TRIGGERS, assumptions=_CS_ASSUME),
     "C08": dict(
-        suite="coinswap", modules=["CantoVerif.Props.C08"] + _CS_BRIDGE_MODULES,
-        theorems=["CV.Coinswap.deadline_respected", "CV.Coinswap.deadline_monitor", "CV.Coinswap.swap_delivered", "CV.Coinswap.swap_delivered_monitor", "CV.Coinswap.swap_full", "CV.Coinswap.swap_bounds_rounding_monitor", "CV.Coinswap.remove_bounds_monitor", "CV.Coinswap.removeEffs_exact", "CV.Coinswap.swapEffs_exact", "CV.Coinswap.notPast_of_not_pastDeadline", "CV.Coinswap.sell_exact_in_min_out",
+        suite="coinswap", modules=["CantoVerif.Props.C08", "CantoVerif.Props.C08AutoSwap"] + _CS_BRIDGE_MODULES,
+        theorems=["CV.Coinswap.deadline_respected", "CV.Coinswap.deadline_monitor", "CV.Coinswap.swap_delivered", "CV.Coinswap.swap_delivered_monitor", "CV.Coinswap.swap_full", "CV.Coinswap.swap_bounds_rounding_monitor", "CV.Coinswap.autoSwap_full", "CV.Coinswap.autoSwap_monitors", "CV.Coinswap.remove_bounds_monitor", "CV.Coinswap.removeEffs_exact", "CV.Coinswap.swapEffs_exact", "CV.Coinswap.notPast_of_not_pastDeadline", "CV.Coinswap.sell_exact_in_min_out",
                   "CV.Coinswap.buy_exact_out_max_in", "CV.Coinswap.add_bounds", "CV.Coinswap.remove_bounds",
                   "CV.Coinswap.sell_bound_tight", "CV.Coinswap.inputPrice_ok", "CV.Coinswap.outputPrice_ok",
                   "CV.Coinswap.addLiveAmounts_ok", "CV.Coinswap.removeAmounts_ok"] + _CS_BRIDGE,
